@@ -98,6 +98,23 @@ func pathConds(info *types.Info, par map[ast.Node]ast.Node, n ast.Node) []condFa
 				}
 			} else if len(x.List) == 1 {
 				out = append(out, condFact{&ast.BinaryExpr{X: sw.Tag, Op: token.EQL, Y: x.List[0]}, false})
+			} else if x.List == nil {
+				// default of a tagged switch: the tag equals none of the labels
+				for _, cl := range sw.Body.List {
+					for _, e := range cl.(*ast.CaseClause).List {
+						out = append(out, condFact{&ast.BinaryExpr{X: sw.Tag, Op: token.EQL, Y: e}, true})
+					}
+				}
+			}
+		case *ast.BinaryExpr:
+			// short-circuit evaluation: the right operand runs only if the left one allowed it
+			if child == ast.Node(x.Y) {
+				switch x.Op {
+				case token.LOR:
+					out = append(out, condFact{x.X, true})
+				case token.LAND:
+					out = append(out, condFact{x.X, false})
+				}
 			}
 		case *ast.FuncLit, *ast.FuncDecl:
 			// stop at the function boundary
@@ -143,20 +160,125 @@ func pathConds(info *types.Info, par map[ast.Node]ast.Node, n ast.Node) []condFa
 			break
 		}
 	}
-	// expand conjunctions of positive facts and disjunctions of negative facts
+	return splitFacts(out)
+}
+
+// splitFacts expands conjunctions of positive facts and disjunctions of negative facts, then
+// applies unit resolution: from ¬(A && B) and A follows ¬B; from (A || B) and ¬A follows B.
+func splitFacts(in []condFact) []condFact {
 	var flat []condFact
-	for _, f := range out {
+	var add func(f condFact)
+	add = func(f condFact) {
+		f = flattenNot(f)
 		if !f.neg {
-			for _, c := range conjuncts(f.e) {
-				flat = append(flat, flattenNot(condFact{c, false}))
+			if cs := conjuncts(f.e); len(cs) > 1 {
+				for _, c := range cs {
+					add(condFact{c, false})
+				}
+				return
 			}
 		} else {
-			for _, d := range disjuncts(f.e) {
-				flat = append(flat, flattenNot(condFact{d, true}))
+			if ds := disjuncts(f.e); len(ds) > 1 {
+				for _, d := range ds {
+					add(condFact{d, true})
+				}
+				return
+			}
+		}
+		flat = append(flat, f)
+	}
+	for _, f := range in {
+		add(f)
+	}
+	known := func(e ast.Expr, neg bool) bool {
+		g := flattenNot(condFact{e, neg})
+		for _, f := range flat {
+			if f.neg == g.neg && sameExpr(f.e, g.e) {
+				return true
+			}
+		}
+		return false
+	}
+	for changed, rounds := true, 0; changed && rounds < 4; rounds++ {
+		changed = false
+		for _, f := range append([]condFact(nil), flat...) {
+			var parts []ast.Expr
+			if f.neg {
+				parts = conjuncts(f.e) // ¬(A && B ...)
+			} else {
+				parts = disjuncts(f.e) // A || B ...
+			}
+			if len(parts) < 2 {
+				continue
+			}
+			var rest []ast.Expr
+			for _, pt := range parts {
+				// a part is settled if its opposite outcome is excluded by what is known
+				if f.neg && known(pt, false) {
+					continue
+				}
+				if !f.neg && known(pt, true) {
+					continue
+				}
+				rest = append(rest, pt)
+			}
+			if len(rest) == 1 && !known(rest[0], f.neg) {
+				n0 := len(flat)
+				add(condFact{rest[0], f.neg})
+				if len(flat) > n0 {
+					changed = true
+				}
 			}
 		}
 	}
 	return flat
+}
+
+// expandFacts replaces facts about single-assignment boolean locals by their defining
+// expressions (kept alongside the originals) and re-splits.
+func expandFacts(info *types.Info, defs map[types.Object]ast.Expr, facts []condFact) []condFact {
+	out := append([]condFact(nil), facts...)
+	for _, f := range facts {
+		if id, ok := ast.Unparen(f.e).(*ast.Ident); ok {
+			if o := usesObj(info, id); o != nil {
+				if def, ok := defs[o]; ok && def != nil {
+					if t := info.TypeOf(def); t != nil && isBool(t) {
+						out = append(out, condFact{def, f.neg})
+					}
+				}
+			}
+		}
+	}
+	// definitions can hide inside compound facts too: substitute idents in ¬(a && b) / (a || b)
+	var subst func(e ast.Expr) ast.Expr
+	subst = func(e ast.Expr) ast.Expr {
+		switch x := ast.Unparen(e).(type) {
+		case *ast.Ident:
+			if o := usesObj(info, x); o != nil {
+				if def, ok := defs[o]; ok && def != nil {
+					if t := info.TypeOf(def); t != nil && isBool(t) {
+						return def
+					}
+				}
+			}
+		case *ast.BinaryExpr:
+			if x.Op == token.LAND || x.Op == token.LOR {
+				return &ast.BinaryExpr{X: subst(x.X), Op: x.Op, OpPos: x.OpPos, Y: subst(x.Y)}
+			}
+		case *ast.UnaryExpr:
+			if x.Op == token.NOT {
+				return &ast.UnaryExpr{Op: token.NOT, OpPos: x.OpPos, X: subst(x.X)}
+			}
+		}
+		return e
+	}
+	for _, f := range facts {
+		switch ast.Unparen(f.e).(type) {
+		case *ast.BinaryExpr, *ast.UnaryExpr:
+			out = append(out, condFact{subst(f.e), f.neg})
+		}
+	}
+	return splitFacts(out)
 }
 
 // flattenNot turns (¬(!x)) into x.
@@ -441,6 +563,17 @@ func linearForm(info *types.Info, defs map[types.Object]ast.Expr, e ast.Expr) (m
 				walk(x.X, sign, depth)
 				walk(x.Y, -sign, depth)
 				return
+			}
+			if x.Op == token.MUL {
+				// multiplication by an integer constant distributes over the other operand
+				if v, ok := constInt(info, x.Y); ok {
+					walk(x.X, sign*v, depth)
+					return
+				}
+				if v, ok := constInt(info, x.X); ok {
+					walk(x.Y, sign*v, depth)
+					return
+				}
 			}
 		case *ast.UnaryExpr:
 			if x.Op == token.SUB {
